@@ -7,15 +7,19 @@ PROP = {'modules': ['AmVerif.Props.C05'],
  'assumptions': ['loaders are deterministic functions of what they read', 'notified = EventSender::send returned before hot_reload was called'],
  'trusted': COMMON_TRUSTED + MODEL_TRUSTED + ['modelled, not verified: HashMap / HashSet iteration order (any order), crossbeam channels as FIFO queues, the reloader thread as the function `hotReload` / `handleEvents` (its scheduling is C08)']}
 
-META = {'text': 'Proved for ALL graphs, changed sets, environments, states: the graph of the reloader keeps rdeps the exact inverse of deps through '
-         'insert / add_deps / message draining (GraphOK); the list a pass reloads is exactly the registered assets reachable from the changed entries '
-         'through reverse dependencies, each once, every asset after every affected entry it depends on (acyclic look-ups), and the sort returns on '
-         'every graph (cycles included); an event is kept iff the graph tracks the entry; a failed reload keeps value and reload id and keeps + extends '
-         'its dependencies; events sent before the request are taken before the update (barrier skeleton regenerated from hot_reloading/mod.rs). '
-         'The semantic statement (cached value = fresh load after hot_reload) is decided by the correspondence with the executable model plus the '
-         'fresh-load oracle after every quiescence barrier; it is FALSE of the code in two order-dependent situations recorded as known findings '
-         '(F-C05d asset first loaded during a pass, F-C05e asset rewired onto an asset changed in the same pass), each with a dedicated reproducer.',
+META = {'text': 'Proved for ALL graphs, changed sets, environments, states. (1) Structure: the graph of the reloader keeps rdeps the exact inverse of deps through '
+         'insert / add_deps / message draining / passes / every history (GraphOK); the list a pass reloads is exactly the registered assets reachable from the '
+         'changed entries through reverse dependencies, each once, every asset after every affected entry it depends on (acyclic look-ups); the sort returns on '
+         'every graph; an event is kept iff the graph tracks the entry; a failed reload keeps value and reload id and keeps + extends its dependencies; barrier '
+         'skeleton regenerated from hot_reloading/mod.rs. (2) Semantics: read-set determinacy (a tracked hit-only re-evaluation depends only on what it records); '
+         'C05_pass_converges_partial / C05_hot_reload_converges_partial: if everything was settled before the edits, the graph is exact and acyclic, the source '
+         'changed only on notified entries, then after one run_update / hot_reload every registered cached dynamic asset holds exactly what re-evaluating its '
+         'loader against the new source and current cache returns (or that re-evaluation fails and the entry kept its value), and the graph holds exactly its '
+         'reads -- under three NAMED hypotheses on the reloads of that pass: NoMissInPass (excludes known finding F-C05d), NoRewireOntoPending (excludes known '
+         'finding F-C05e), ReloadsReturn (no panic / divergence). The full statement without them is refuted on concrete witnesses '
+         '(C05_full_statement_false_miss, C05_full_statement_false_rewire), which are the two known findings reproduced on the real code by dedicated probes.',
  'design_ref': 'DESIGN.md §D C05, §E',
- 'note': 'partial: semantic convergence over histories is not a theorem (the full statement is false, see the two known findings); the structural '
-         'theorems above are unbounded; HashSet iteration order is modelled as any order.',
- 'technique': 'Lean 4 proof over executable model + differential correspondence'}
+ 'note': 'partial: convergence is proved per pass (the conclusion re-establishes the hypotheses for the next pass except the rank function); that a first load '
+         'establishes Settled is checked on concrete states only; loadOwned edges, unrecorded reads (no_record / helper threads), cold types and static-mode '
+         'handle_events are outside the semantic theorem and decided by the correspondence + fresh-load oracle; HashSet iteration order is modelled as any order.',
+ 'technique': 'Lean 4 proof (read-set determinacy + topological induction over one update pass; graph invariants over all histories) + differential correspondence + fresh-load oracle'}
